@@ -8,6 +8,7 @@ import (
 	"fmt"
 	"io"
 	"net"
+	"strconv"
 	"strings"
 	"sync"
 	"syscall"
@@ -144,17 +145,14 @@ func substituteBackendParams(template string, groups []string) string {
 		return template
 	}
 
-	result := template
-	// Replace $1, $2, etc. with captured groups
-	// We need to handle this carefully to avoid replacing $10 when we mean $1
-	// Process from highest index to lowest to avoid partial replacements
+	// Replace $1, $2, etc. with captured groups in a single pass over the template, so that
+	// text taken from the client's host (which may itself contain "$1") is never expanded again.
+	// Higher indexes come first so that "$10" is not read as "$1" followed by "0".
+	pairs := make([]string, 0, len(groups)*2)
 	for i := len(groups); i >= 1; i-- {
-		param := fmt.Sprintf("$%d", i)
-		if i-1 < len(groups) {
-			result = strings.ReplaceAll(result, param, groups[i-1])
-		}
+		pairs = append(pairs, "$"+strconv.Itoa(i), groups[i-1])
 	}
-	return result
+	return strings.NewReplacer(pairs...).Replace(template)
 }
 
 func findRoute(
